@@ -227,12 +227,16 @@ class Ctx:
         self.promoted = {}
         for f in fns:
             if getattr(f, "is_promoted", False):
-                mm = re.search(r"::(\w+)::promoted\[(\d+)\]$", f.name)
+                mm = re.search(r"(?:^|::)(\w+)::promoted\[(\d+)\]$", f.name)
+                if not mm:
+                    continue
                 ity = impl_type(repo, f.impl_loc) if f.impl_loc else None
                 try:
                     ps = execute(self, f, [])
                     if len(ps) == 1 and not isinstance(ps[0][1], tuple):
                         self.promoted[(ity, mm.group(1), int(mm.group(2)))] = ps[0][1]
+                        if ity is None:
+                            self.promoted[("fn", mm.group(1), int(mm.group(2)))] = ps[0][1]
                 except Unsupported:
                     pass
 
@@ -489,7 +493,7 @@ def promoted(ctx, c):
     if not m:
         raise Unsupported("promoted " + c)
     key = (m.group(1), m.group(2), int(m.group(3)))
-    pv = ctx.promoted.get(key)
+    pv = ctx.promoted.get(key) or ctx.promoted.get(("fn", m.group(2), int(m.group(3))))
     if pv is None:
         raise Unsupported("unknown promoted constant %s" % (key,))
     return pv
@@ -586,6 +590,26 @@ def call(ctx, callee, argv, depth):
         a = argv[0]
         t = " ".join("((_ zero_extend 31) ((_ extract %d %d) %s))" % (i, i, a.term) for i in range(8))
         return [("true", V("bv", term="(bvadd %s)" % t, w=32))]
+    m1 = re.match(r"^char::methods::<impl char>::(\w+)$", callee)
+    if m1 and argv:
+        a = argv[0].target if argv[0].kind == "ref" else argv[0]
+        if a.kind == "bv" and a.w == 32:
+            c = a.term
+            lo = "(and (bvuge %s #x00000061) (bvule %s #x0000007a))" % (c, c)
+            up = "(and (bvuge %s #x00000041) (bvule %s #x0000005a))" % (c, c)
+            name = m1.group(1)
+            if name == "to_ascii_uppercase":
+                return [("true", V("bv", term="(ite %s (bvsub %s #x00000020) %s)" % (lo, c, c), w=32))]
+            if name == "to_ascii_lowercase":
+                return [("true", V("bv", term="(ite %s (bvadd %s #x00000020) %s)" % (up, c, c), w=32))]
+            if name == "is_ascii_lowercase":
+                return [("true", V("bool", term=lo))]
+            if name == "is_ascii_uppercase":
+                return [("true", V("bool", term=up))]
+            if name == "is_ascii_alphabetic":
+                return [("true", V("bool", term="(or %s %s)" % (lo, up)))]
+            if name == "is_ascii":
+                return [("true", V("bool", term="(bvule %s #x0000007f)" % c))]
     if callee == "<bool as Default>::default":
         return [("true", V("bool", term="false"))]
     m0 = re.match(r"^<(\w+) as Clone>::clone$", callee)
